@@ -291,6 +291,8 @@ def slave_contexts(run, r):
             lo = spec['start'] if spec['type'] == 'seq' else min(int(k) for k in spec['cells'])
             hi = lo + (len(spec['values']) if spec['type'] == 'seq' else 24)
             a = r.randint(max(-1, lo - 3), hi + 1)
+            if r.random() < 0.12:
+                a = r.choice([0, 1, 65533, 65534, 65535])        # both ends of the 16-bit wire address space, wherever the block lies
             c = r.choice([1, 1, 2, 3, 5])
             x = r.random()
             if x < 0.35:
